@@ -89,6 +89,11 @@ def absent_label(spec, variant=0, span=None):
         first = span[min(1, len(span) - 1)]
         if isinstance(first, np.generic):
             first = first.item()
+        if ty == 'pd_datetime':
+            import datetime
+
+            # an absent timestamp inside a present day: must not be rounded onto that day's period
+            return first + (first - first) + __import__('pandas').Timedelta(hours=12) if variant == 1 else first.to_pydatetime() + datetime.timedelta(seconds=1)
         if ty == 'list_mixed':
             return 'az' if variant == 1 else 7.5
         if isinstance(first, int) and not isinstance(first, bool):
